@@ -314,14 +314,18 @@ def run_relinked(ctx, w, SCSI, rng):
 
     for t1, t2 in ((0x00, 0x01), (0x01, 0x00), (0x05, 0x08), (0x08, 0x05), (0x00, 0x0C), (0x07, 0x05), (0x01, 0x01)):
         for detect in (True, False):
-            for pollute in (False, True):
-                node = devnode.new_node(link=True)
+            for pollute in (False, True, "chardev"):
+                if pollute == "chardev" and not devnode.chardev_possible():
+                    ctx.count("chardev_nodes_unavailable")
+                    continue
+                # a persistent name (symlink), or a character special file whose replacement has the same device number
+                node = devnode.new_node(link="chardev" if pollute == "chardev" else True)
                 a, b = Target(t1, 0), Target(t2, 0)
                 w.by_ino[os.stat(node).st_ino] = a
-                wit = {"transport": "sgio", "types": [t1, t2], "path_is_symlink": True, "detect_replugged": detect}
+                wit = {"transport": "sgio", "types": [t1, t2], "path_is_symlink": pollute != "chardev", "path_is_character_device": pollute == "chardev", "detect_replugged": detect}
                 ctx.case(("relinked", t1, t2, detect, pollute), True, sample=wit if ctx.want_sample() else None)
                 ctx.count("relinked_histories")
-                if pollute:
+                if pollute is True:
                     for args in ((96, 2), (96, 1), (0x12, 1), (0, 1), (96,), (0, 2)):
                         try:
                             x = conv.scsi_int_to_ba(*args)
